@@ -28,10 +28,63 @@ EXTRA_LEVELS = ("Precursor", "ModifiedPeptide", "PeptideGroup")
 
 
 # ----------------------------------------------------------------------------------------------- generator
-def gen_table(rng, n_rows, extra, id0=0, scan0=0, p_target=None, label_by_peptide=None, overlap=None):
+def gen_spectra(rng, n):
+    """n >= 3 distinct spectrum keys (ScanNr, ExpMass) that are easy to confuse (class `confusable`), in shuffled
+    order. Groups of 2-3 keys (the first group of kind concat, the others of a drawn kind) while 3 more keys fit, then
+    plain keys up to n:
+    concat    - the digits of one string of 3-5 digits 1..9 are split at 2-3 different places into ScanNr and the
+                integer part of ExpMass (same fraction), e.g. (1, 11.5) and (11, 1.5), or (2, 132.25), (21, 32.25) and
+                (213, 2.25): the keys differ in both columns but read the same when the values are written one after
+                the other;
+    same-scan - one ScanNr with 2-3 different ExpMass values (the key differs in its second column only);
+    same-mass - one ExpMass with 2-3 different ScanNr values (the key differs in its first column only)."""
+    keys = []
+    kinds = ["concat", "same-scan", "same-mass"]
+    g = 0
+    while g == 0 or len(keys) + 3 <= n:
+        kind = "concat" if g == 0 else str(rng.choice(kinds))
+        g += 1
+        size = int(rng.choice([2, 2, 3]))
+        if kind == "concat":
+            digits = "".join(str(int(x)) for x in rng.integers(1, 10, int(rng.integers(3, 6))))
+            frac = float(rng.choice([0.5, 0.25, 0.125, 0.75]))
+            cuts = rng.choice(np.arange(1, len(digits)), min(size, len(digits) - 1), replace=False)
+            new = [(int(digits[:c]), int(digits[c:]) + frac) for c in cuts]
+        elif kind == "same-scan":
+            scan = int(rng.integers(1, 1000))
+            new = [(scan, float(m) + 0.5) for m in rng.choice(np.arange(100, 2000), size, replace=False)]
+        else:
+            mass = float(rng.integers(100, 2000)) + 0.25
+            new = [(int(x), mass) for x in rng.choice(np.arange(1, 1000), size, replace=False)]
+        keys += [k for k in new if k not in keys]
+    while len(keys) < n:
+        k = (int(rng.integers(1000, 5000)), float(rng.integers(100, 2000)) + 0.0625)
+        if k not in keys:
+            keys.append(k)
+    return [keys[i] for i in rng.permutation(len(keys))]
+
+
+def confusable_pairs(keys):
+    """number of pairs of DISTINCT spectrum keys that agree in one column or in the concatenated text"""
+    keys = sorted(set(keys))
+    cnt = {"concat": 0, "one-column": 0}
+    for i, a in enumerate(keys):
+        for b in keys[i + 1:]:
+            if a[0] == b[0] or a[1] == b[1]:
+                cnt["one-column"] += 1
+            elif "%s%s" % a == "%s%s" % b:
+                cnt["concat"] += 1
+    return cnt
+
+
+def gen_table(rng, n_rows, extra, id0=0, scan0=0, p_target=None, label_by_peptide=None, overlap=None,
+              spectra=False):
     """A PIN-like table with n_rows PSMs: spectra of multiplicity 1..3, peptides shared between spectra, a
     target/decoy mix and optional extra level columns. SpecId values are unique (also across collections).
-    overlap (class `alike`, see OVERLAP_MODES): entity names of DIFFERENT level columns may be spelled identically."""
+    overlap (class `alike`, see OVERLAP_MODES): entity names of DIFFERENT level columns may be spelled identically.
+    spectra (class `confusable`): the spectrum keys come from gen_spectra instead of (k, 500 + k/2)."""
+    # every table has at least ceil(n_rows / 3) spectra: those get the confusable keys, later ones plain keys
+    keys = gen_spectra(rng, max(3, -(-n_rows // 3))) if spectra else None
     if p_target is None:
         p_target = rng.choice([0.35, 0.5, 0.65])
     if label_by_peptide is None:
@@ -47,6 +100,9 @@ def gen_table(rng, n_rows, extra, id0=0, scan0=0, p_target=None, label_by_peptid
             lab = pep_label[p] if label_by_peptide else (1 if rng.random() < p_target else -1)
             row = dict(SpecId=id0 + len(rows), Label=lab, ScanNr=scan, ExpMass=500.0 + 0.5 * scan, f0=0.0,
                        Peptide="PEP%dK" % p, Proteins="prot%d" % (p % 4))
+            if keys is not None:
+                k = scan - scan0
+                row["ScanNr"], row["ExpMass"] = keys[k] if k < len(keys) else (5000 + k, 100.0625 + k)
             for k, col in enumerate(extra):
                 # entities coarser or finer than the peptide, shared between spectra
                 m = max(5, n_pep // 2) if col == "PeptideGroup" else n_pep + 3
@@ -116,12 +172,16 @@ def gen_config(rng, tier):
 
 
 OVERLAP_MODES = ("as-peptide", "shared-pool", "both")
-CLASS_TAG = {"alike": "entity-spelled-alike-across-levels", "zero": "zero-score-multichunk"}
+CLASS_TAG = {"alike": "entity-spelled-alike-across-levels", "zero": "zero-score-multichunk",
+             "confusable": "confusable-spectrum-keys"}
 
 
 def gen_config_class(rng, tier, cls):
-    """configurations of two input classes that gen_config does not reach (key `cls`; build_case reads the keys
-    `overlap` and `zero`):
+    """configurations of three input classes that gen_config does not reach (key `cls`; build_case reads the keys
+    `overlap`, `zero` and `spectra`):
+    confusable - de-duplication on and spectrum keys from gen_spectra: distinct (ScanNr, ExpMass) pairs that agree in
+            one of the two columns, or that read the same when the two values are written one after the other; each
+            of them is a spectrum of its own;
     alike - rollup with 1-2 extra level columns in which entity names are spelled like names of ANOTHER level:
             an extra column equal to the Peptide string in about half of the rows (as-peptide: the unmodified
             peptides of a ModifiedPeptide column), two extra columns drawing from one name pool (shared-pool), or
@@ -141,6 +201,8 @@ def gen_config_class(rng, tier, cls):
     elif cls == "zero":
         cfg.update(chunk=int(rng.choice([1, 2, 3, 5, 8])), zero=int(rng.integers(len(cfg["n_rows"]))))
         cfg["n_rows"] = [max(10, x) for x in cfg["n_rows"]]
+    elif cls == "confusable":
+        cfg.update(dedup=True, spectra=True)
     else:
         raise ValueError(cls)
     return cfg
@@ -157,7 +219,7 @@ def build_case(cfg):
         for attempt in range(2000):
             if cfg.get("cls"):
                 df = gen_table(rng, n + attempt // 40, cfg["extra"], id0=id0, scan0=scan0,
-                               overlap=cfg.get("overlap"))
+                               overlap=cfg.get("overlap"), spectra=bool(cfg.get("spectra")))
                 sc = gen_scores(rng, len(df), zero=cfg.get("zero") == k)
             else:
                 df = gen_table(rng, n + attempt // 40, cfg["extra"], id0=id0, scan0=scan0)
@@ -358,6 +420,8 @@ def nontrivial(cfg, tables):
         return _alike_nontrivial(cfg, tables)
     if cfg.get("cls") == "zero":
         return _zero_nontrivial(cfg, tables)
+    if cfg.get("cls") == "confusable":
+        return _confusable_nontrivial(cfg, tables)
     for df, sc in tables:
         lev = retained_levels(df, sc, dict(cfg, dedup=True, rollup=True, level_columns=["Peptide"]))
         if len(lev["peptides"]) < len(lev["psms"]) < len(df):
@@ -374,6 +438,16 @@ def _alike_nontrivial(cfg, tables):
             for b in cols[i + 1:]:
                 if set(psms[a].astype(str)) & set(psms[b].astype(str)):
                     return True
+    return False
+
+
+def _confusable_nontrivial(cfg, tables):
+    """some collection holds two distinct spectrum keys with the same concatenated text AND two that agree in
+    exactly one column"""
+    for df, sc in tables:
+        cnt = confusable_pairs(list(zip(df["ScanNr"].tolist(), df["ExpMass"].tolist())))
+        if cnt["concat"] and cnt["one-column"]:
+            return True
     return False
 
 
@@ -452,7 +526,8 @@ def check_assign(tier, seed, n_cases=None):
 
 def check_assign_class(tier, seed, cls, n_cases=None):
     """the same driver and oracle as check_assign on the input classes of gen_config_class"""
-    n = n_cases or ({"alike": 18, "zero": 24}[cls] if tier == "quick" else 500)
+    n = n_cases or ({"alike": 18, "zero": 24, "confusable": 10}[cls] if tier == "quick"
+                    else {"confusable": 300}.get(cls, 500))
     common = ("otherwise as assign_confidence_levels (1-3 collections of 8-30 PSMs, spectrum multiplicity 1-3, "
               "de-dup/decoys/prefixes on and off, CSV and Parquet input, max_workers=1, qvality PEPs not checked)")
     if cls == "alike":
@@ -465,6 +540,20 @@ def check_assign_class(tier, seed, cls, n_cases=None):
                    "tables from gen_table(overlap=...); oracle as in assign_confidence_levels (every level "
                    "de-duplicated on its own column only); non-trivial = among the PSMs retained by the "
                    "competition of some collection one string names entities of two different level columns")
+    elif cls == "confusable":
+        ck = Check("assign_confidence_confusable_spectra", "mokapot.confidence.assign_confidence",
+                   "random: %d configurations (seed %d) with de-duplication on and, in every collection, spectrum "
+                   "keys (ScanNr, ExpMass) in groups of 2-3 distinct keys that are easy to confuse: the digits of one "
+                   "string of 3-5 digits split at different places into ScanNr and the integer part of ExpMass "
+                   "(e.g. (1, 11.5) and (11, 1.5); at least one such group per collection), one ScanNr with 2-3 "
+                   "ExpMass values, one ExpMass with 2-3 ScanNr values; the first ceil(n/3) spectra of a collection "
+                   "of n PSMs get such keys, the others plain ones; 0-2 extra level columns, rollup on and off, "
+                   "CONFIDENCE_CHUNK_SIZE in {default,1,2,3,5,8}, tie-free scores; %s"
+                   % (n, seed, common.replace("de-dup/decoys/prefixes", "decoys/prefixes")),
+                   "tables from gen_table(spectra=True) with keys from gen_spectra; oracle as in "
+                   "assign_confidence_levels (a spectrum = one distinct pair of values of the two spectrum "
+                   "columns); non-trivial = some collection holds two distinct keys with the same concatenated text "
+                   "and two distinct keys that agree in exactly one column")
     else:
         ck = Check("assign_confidence_zero_score", "mokapot.confidence.assign_confidence",
                    "random: %d configurations (seed %d) with CONFIDENCE_CHUNK_SIZE in {1,2,3,5,8} and 10-30 PSMs "
@@ -475,7 +564,7 @@ def check_assign_class(tier, seed, cls, n_cases=None):
                    "tables from gen_table, scores from gen_scores(zero=True); oracle as in "
                    "assign_confidence_levels; non-trivial = in file order the 0.0 PSM lies in a chunk before a "
                    "chunk that holds a negative score")
-    rng = np.random.default_rng([seed, {"alike": 31, "zero": 32}[cls]])
+    rng = np.random.default_rng([seed, {"alike": 31, "zero": 32, "confusable": 34}[cls]])
     cfgs = [gen_config_class(rng, tier, cls) for _ in range(n)]
     for cfg, (nt, bad) in zip(cfgs, _pool_map(_assign_worker, cfgs)):
         ck.case(cfg, nontrivial=nt)
@@ -485,10 +574,37 @@ def check_assign_class(tier, seed, cls, n_cases=None):
 
 
 # ----------------------------------------------------------------------------------------------- rollup tool
+TOOL_BASE = {"psm": None, "precursor": "Precursor", "peptide": "Peptide"}   # --level -> level column of the base
+
+
+def _tool_levels(cfg):
+    """level columns for which brew_rollup --level <tool_level> has to write result files: from psm and from
+    precursor every level column of the files, from peptide (the top of the hierarchy) the peptide level only"""
+    return ["Peptide"] if cfg.get("tool_level") == "peptide" else list(cfg["level_columns"])
+
+
+def _base_rows(cfg, tables):
+    """per collection the input rows that the property says are in its result file of the tool's base level"""
+    col = TOOL_BASE[cfg.get("tool_level", "psm")]
+    lev = "psms" if col is None else col.lower() + "s"
+    return [retained_levels(df, sc, dict(cfg, rollup=True))[lev] for df, sc in tables]
+
+
 def _union_usable(cfg, tables):
-    """the union of the PSM-level rows must allow PEP estimation at every rollup level (cf. _usable)"""
-    rows = pd.concat([retained_levels(df, sc, cfg)["psms"] for df, sc in tables], ignore_index=True)
-    return _usable(rows.drop(columns=["score", "target"]), rows["score"].values, dict(cfg, dedup=False))
+    """the union of the base-level rows (PSM-level rows for --level psm) must allow PEP estimation at every rollup
+    level (cf. _usable)"""
+    rows = pd.concat(_base_rows(cfg, tables), ignore_index=True)
+    return _usable(rows.drop(columns=["score", "target"]), rows["score"].values,
+                   dict(cfg, dedup=False, level_columns=_tool_levels(cfg)))
+
+
+def _shared_base_entities(cfg, tables):
+    """number of entities of the tool's base level that occur in the base-level rows of two or more collections"""
+    col = TOOL_BASE[cfg.get("tool_level", "psm")]
+    if col is None:
+        return 0
+    seen = pd.concat([r[col].drop_duplicates() for r in _base_rows(cfg, tables)])
+    return int((seen.value_counts() > 1).sum())
 
 
 def _rollup_worker(cfg):
@@ -501,24 +617,35 @@ def _rollup_worker(cfg):
         cfg["seed"] += 1
     with scratch("c03r_") as d:
         bad = rollup_case(cfg, tables, d, rollup_main)
-    nt = len(tables) > 1 or any(retained_levels(df, sc, cfg)["psms"].duplicated("Peptide").any()
-                                for df, sc in tables)
+    if cfg.get("tool_level", "psm") != "psm":
+        nt = _shared_base_entities(cfg, tables) > 0
+    else:
+        nt = len(tables) > 1 or any(retained_levels(df, sc, cfg)["psms"].duplicated("Peptide").any()
+                                    for df, sc in tables)
     return cfg, nt, bad
 
 
 def check_rollup_tool(tier, seed, n_cases=None):
     n = n_cases or (30 if tier == "quick" else 450)
     n_cls = max(2, n // 10)
+    n_base = max(4, n // 4)
     ck = Check("rollup_tool", "mokapot.brew_rollup.main",
                "random: %d cases (seed %d): 1-3 prefixed collections of 12-30 PSMs; their *.psms result files "
                "written by assign_confidence (de-dup on, decoys on, CSV) are rolled up by brew_rollup --level psm "
                "into a second directory; 0-1 extra level column (Precursor/ModifiedPeptide/PeptideGroup); plus %d "
                "cases with one extra level column that is spelled like the Peptide in about half of the rows and %d "
                "cases in which one collection's score vector holds exactly one 0.0 with negative scores below it "
-               "(CONFIDENCE_CHUNK_SIZE in {1,2,3,5,8} while the PSM files are written)" % (n, seed, n_cls, n_cls),
-               "oracle = per rollup level the best row per entity among the union of the previously written PSM "
-               "rows (targets and decoys of all collections), C01 formula on those; non-trivial = several "
-               "collections or a peptide occurring in more than one input row")
+               "(CONFIDENCE_CHUNK_SIZE in {1,2,3,5,8} while the PSM files are written); plus %d cases with 2-3 "
+               "collections (entity names are shared between collections) whose result files of a higher level are "
+               "rolled up: alternately the *.precursors files (extra level columns Precursor, or Precursor and one "
+               "of ModifiedPeptide/PeptideGroup) by --level precursor and the *.peptides files (0-1 extra level "
+               "column) by --level peptide" % (n, seed, n_cls, n_cls, n_base),
+               "oracle = per rollup level the best row per entity among the union of the previously written rows "
+               "of the base level (targets and decoys of all collections), C01 formula on those; expected levels: "
+               "every level column of the files for --level psm and --level precursor (precursor level included), "
+               "the peptide level for --level peptide; non-trivial = several collections or a peptide occurring in "
+               "more than one input row; for --level precursor/peptide: an entity of the base level occurs in the "
+               "files of two or more collections")
     rng = np.random.default_rng(seed + 7)
     cfgs = []
     for _ in range(n):
@@ -541,10 +668,29 @@ def check_rollup_tool(tier, seed, n_cases=None):
             cfg["extra"] = cfg["extra"][:1]
         cfg["level_columns"] = cfg["extra"] + ["Peptide"]
         cfgs.append(cfg)
+    # result files of a higher level as the tool's input: the base level itself has to be de-duplicated over the
+    # collections, and the levels above it are derived from it
+    rng = np.random.default_rng([seed, 35])
+    for i in range(n_base):
+        cfg = gen_config(rng, tier)
+        cfg.update(dedup=True, rollup=False, decoys=True, prefixes=True, fmt=".pin")
+        if len(cfg["n_rows"]) < 2:
+            cfg["n_rows"] = cfg["n_rows"] + [int(rng.integers(12, 31)) for _ in range(int(rng.integers(1, 3)))]
+        cfg["n_rows"] = [max(12, x) for x in cfg["n_rows"]]
+        if i % 2 == 0:
+            other = [c for c in cfg["extra"] if c != "Precursor"][:1]
+            cfg.update(tool_level="precursor", extra=["Precursor"] + other)
+        else:
+            cfg.update(tool_level="peptide", extra=cfg["extra"][:1])
+        cfg["level_columns"] = cfg["extra"] + ["Peptide"]
+        cfgs.append(cfg)
     for cfg, nt, bad in _pool_map(_rollup_worker, cfgs):
         ck.case(cfg, nontrivial=nt)
+        tag = "/" + CLASS_TAG[cfg["cls"]] if cfg.get("cls") else ""
+        if cfg.get("tool_level"):
+            tag += "/tool-level-" + cfg["tool_level"]
         for case_id, msg in bad:
-            ck.violation(case_id + ("/" + CLASS_TAG[cfg["cls"]] if cfg.get("cls") else ""), msg, cfg)
+            ck.violation(case_id + tag, msg, cfg)
     return ck
 
 
@@ -564,9 +710,10 @@ def rollup_case(cfg, tables, d, rollup_main):
     src = Path(d) / "src"
     src.mkdir()
     rows = []
+    tool_level = cfg.get("tool_level", "psm")
     for p in prefixes:
         for kind in ("targets", "decoys"):
-            fn = "%s.%s.psms" % (p, kind)
+            fn = "%s.%s.%ss" % (p, kind, tool_level)
             if not (out / fn).exists():
                 return [("result-file-missing", "assign_confidence did not write %s (directory holds %s)"
                          % (fn, sorted(os.listdir(out))))]
@@ -576,12 +723,12 @@ def rollup_case(cfg, tables, d, rollup_main):
             rows.append(t)
     dest = Path(d) / "dest"
     try:
-        rollup_main(["--level", "psm", "--src_dir", str(src), "--dest_dir", str(dest), "-v", "0"])
+        rollup_main(["--level", tool_level, "--src_dir", str(src), "--dest_dir", str(dest), "-v", "0"])
     except BaseException as e:
         return [("rollup-failed-%s" % type(e).__name__, "brew_rollup raised %s: %s" % (type(e).__name__, str(e)[:200]))]
     allrows = pd.concat(rows, ignore_index=True)
     bad = []
-    for col in cfg["level_columns"]:
+    for col in _tool_levels(cfg):
         lev = ROLLUP_LEVEL_OF[col]
         key = "peptide" if col == "Peptide" else col
         keep = [g["score"].idxmax() for _, g in allrows.groupby(key, sort=False)]
@@ -608,7 +755,7 @@ def REPLAY(check_name, violation):
     if isinstance(inp, str):
         inp = json.loads(inp)
     if check_name in ("assign_confidence_levels", "assign_confidence_alike_level_names",
-                      "assign_confidence_zero_score"):
+                      "assign_confidence_zero_score", "assign_confidence_confusable_spectra"):
         _, bad = run_case(inp)
     elif check_name == "rollup_tool":
         _, _, bad = _rollup_worker(inp)
@@ -621,7 +768,8 @@ if __name__ == "__main__":
     a = args()
     np.random.seed(a.seed)
     emit([check_assign(a.tier, a.seed), check_assign_class(a.tier, a.seed, "alike"),
-          check_assign_class(a.tier, a.seed, "zero"), check_rollup_tool(a.tier, a.seed)],
+          check_assign_class(a.tier, a.seed, "zero"), check_assign_class(a.tier, a.seed, "confusable"),
+          check_rollup_tool(a.tier, a.seed)],
          ["PEP values are not checked here (C06); qvality needs targets and decoys among the retained rows, so "
           "tables without >= 2 retained targets and >= 2 retained decoys are regenerated",
           "scores are tie-free (at most one exact 0.0 per case, in the zero-score classes only); protein level "
@@ -629,4 +777,8 @@ if __name__ == "__main__":
           "their defaults (chunking is C05)",
           "entity names shared between level columns are generated only in the alike-level-names classes; "
           "spectrum keys are never spelled like an entity name",
-          "rollup_tool: PSM files are produced by assign_confidence itself; the tool is run with --level psm"])
+          "confusable spectrum keys (distinct keys equal in one column or in their concatenated text) are generated "
+          "only in assign_confidence_confusable_spectra; the spectrum columns are the numeric ScanNr and ExpMass",
+          "rollup_tool: the input files are produced by assign_confidence itself; the tool is run with --level psm, "
+          "and on 2-3 collections with --level precursor and --level peptide; --level modifiedpeptide and "
+          "--level peptidegroup are not exercised; CSV result files only"])
